@@ -18,7 +18,9 @@ const rule = "random walks of 1..12 requests steered through DEPLOY/CONFIGURE/ST
 	"call hooks at DESTROY/after_DESTROY, calls still pending, forced or not, release rounds failing or not, then 0..2 further requests); every fifth case a " +
 	"body-failure class with the REAL transition bodies (the tasks refuse the command of START_ACTIVITY - half of them -, STOP_ACTIVITY, CONFIGURE or RESET, requested " +
 	"through TryTransition or the API glue, after a legal path that sometimes holds a complete earlier run, with 0..4 probes at the moments of the failed transition and of " +
-	"the GO_ERROR that closes it, then 0..3 further requests: GO_ERROR, the request again, RECOVER, STOP, teardown); half of the remaining walks with the real bodies of " +
+	"the GO_ERROR that closes it, then 0..3 further requests: GO_ERROR, the request again, RECOVER, STOP, teardown); every seventh case a cross-pass class (run cycle once or twice, closed by STOP_ACTIVITY or GO_ERROR; 1..2 calls triggered at a negative weight and awaited at a " +
+	"non-negative weight of ONE moment of the run bracket - or the reverse -, 1..2 call / task hooks triggered at that await weight, 0..2 more at other weights of both signs: each " +
+	"hook runs once per occurrence of the moment, in the pass of its own sign, and sees what that pass sees); half of the remaining walks with the real bodies of " +
 	"CONFIGURE/START/STOP/RESET (TR/CR requests: fake task manager answers the body's command per script); non-trivial = at least one run " +
 	"number was handed out and >=3 requests; distinct by input text"
 
